@@ -4,7 +4,7 @@
    channels).  PARTIAL: the winner-take-all dynamics that make the selection
    one-hot are not modelled; that hypothesis is observed in simulation. *)
 From mathcomp Require Import all_ssreflect all_algebra.
-From NSpa Require Import Model.Vec Model.Routing Theory.RoutingLaws.
+From NSpa Require Import Model.Vec Model.Routing Theory.RoutingLaws Theory.RoutingRobust.
 Import GRing.Theory Num.Theory.
 Local Open Scope ring_scope.
 
@@ -43,6 +43,45 @@ Theorem C04_each_wire_passes_iff_its_action_wins :
 Proof. first [exact: contribution_onehot | by move=> *; exact: contribution_onehot | by intros; eapply contribution_onehot; eauto]. Qed.
 Print Assumptions C04_each_wire_passes_iff_its_action_wins.
 
+(* ---- any selection activity, not only a one-hot one (Theory/RoutingRobust.v) ---------------- *)
+(* what a target receives, component by component, as a function of the thalamus activities:
+   fixed effects scaled by their action's activity, dynamic effects passed iff the gate is open *)
+Theorem C04_received_value_for_any_selection_activity :
+  forall (R : realDomainType) (dims : nat -> nat) (dyn : nat -> seq R) (theta : R)
+         (actions : seq (seq (effect R))) (act : nat -> R) t j,
+    all (all (effect_ok dims dyn)) actions ->
+    vnth (received dims dyn theta act t (build actions)) j
+    = \sum_(i < size actions) \sum_(e <- nth [::] actions i)
+         vnth (leak_value dims dyn (act i) (~~ gate_active theta (act i)) t e) j.
+Proof. first [exact: received_any | by move=> *; exact: received_any | by intros; eapply received_any; eauto]. Qed.
+Print Assumptions C04_received_value_for_any_selection_activity.
+
+(* "suppressed to near zero in all dimensions": losers with activity at most eps (gates closed)
+   leak at most eps times their total fixed effect into any component of any target *)
+Theorem C04_losing_actions_leak_at_most_eps_times_their_fixed_effects :
+  forall (R : realDomainType) (dims : nat -> nat) (dyn : nat -> seq R) (theta : R)
+         (actions : seq (seq (effect R))) (act : nat -> R) (w : 'I_(size actions)) eps t j,
+    all (all (effect_ok dims dyn)) actions ->
+    ~~ gate_active theta (act w) ->
+    (forall i : 'I_(size actions), i != w -> gate_active theta (act i) /\ `|act i| <= eps) ->
+    `| vnth (received dims dyn theta act t (build actions)) j
+       - \sum_(e <- nth [::] actions w) vnth (leak_value dims dyn (act w) true t e) j |
+    <= eps * \sum_(i < size actions | i != w) \sum_(e <- nth [::] actions i) `|vnth (fixed_part dims t e) j|.
+Proof. first [exact: losers_leak_at_most | by move=> *; exact: losers_leak_at_most | by intros; eapply losers_leak_at_most; eauto]. Qed.
+Print Assumptions C04_losing_actions_leak_at_most_eps_times_their_fixed_effects.
+
+(* the exact case: winner at 1 with an open gate, losers at 0 with closed gates *)
+Theorem C04_exact_selection_delivers_exactly_the_declared_effects :
+  forall (R : realDomainType) (dims : nat -> nat) (dyn : nat -> seq R) (theta : R)
+         (actions : seq (seq (effect R))) (act : nat -> R) (w : 'I_(size actions)) t j,
+    all (all (effect_ok dims dyn)) actions ->
+    act w = 1 -> ~~ gate_active theta (act w) ->
+    (forall i : 'I_(size actions), i != w -> gate_active theta (act i) /\ act i = 0) ->
+    vnth (received dims dyn theta act t (build actions)) j
+    = \sum_(e <- nth [::] actions w) vnth (effect_value dims dyn t e) j.
+Proof. first [exact: exact_selection | by move=> *; exact: exact_selection | by intros; eapply exact_selection; eauto]. Qed.
+Print Assumptions C04_exact_selection_delivers_exactly_the_declared_effects.
+
 (* non-vacuity: a two-action rule set with a fixed and a dynamic effect meets the hypotheses *)
 From mathcomp Require Import ssrZ.
 From Coq Require Import ZArith.
@@ -52,4 +91,16 @@ Example C04_hypotheses_met :
     [:: [:: Effect (SFixed [:: 1; 0]%Z) 0 false]; [:: Effect (SDyn R 0) 0 false]] in
   all (all (effect_ok (fun _ => 2%N) (fun _ => [:: 0; 1]%Z))) acts /\
   received (fun _ => 2%N) (fun _ => [:: 0; 1]%Z) (0 : R) (onehot R 1) 0 (build acts) = [:: 0; 1]%Z.
+Proof. by []. Qed.
+
+(* non-vacuity of the leak bound: winner at activity 1 (gate open), loser at activity -1
+   (gate closed, magnitude 1 = eps): the loser's fixed effect leaks with factor -1 *)
+Example C04_leak_hypotheses_met :
+  let R := [realDomainType of Z] in
+  let acts : seq (seq (effect R)) :=
+    [:: [:: Effect (SFixed [:: 1; 0]%Z) 0 false]; [:: Effect (SFixed [:: 0; 1]%Z) 0 false]] in
+  let act : nat -> R := fun i => if i == 0%N then 1%Z else (-1)%Z in
+  [/\ all (all (effect_ok (fun _ => 2%N) (fun _ => [:: 0; 0]%Z))) acts,
+      ~~ gate_active (0 : R) (act 0%N), gate_active (0 : R) (act 1%N), (`|act 1%N| <= 1)%R
+    & received (fun _ => 2%N) (fun _ => [:: 0; 0]%Z) (0 : R) act 0 (build acts) = [:: 1; -1]%Z].
 Proof. by []. Qed.
